@@ -73,7 +73,7 @@ def scenarios(seed, tier):
             b = dict(base[v])
             for kind in kinds:
                 for sched in ([('k', k) for k in ks] + [('region', 0)]):
-                    if tier == 'quick' and (hash((v, pl, kind, sched)) % 3 != 0):
+                    if tier == 'quick' and ((len(v) + 3 * len(pl) + 5 * kinds.index(kind) + 7 * sched[1] + (11 if sched[0] == 'region' else 0)) % 3 != 0):
                         continue
                     faults.append(dict(id=10000 + len(faults), variant=v, planner=pl, seed=1000 + fid, bias=0.1, timeout=3.0, build=0.05,
                                        fault=dict(kind=kind, sched=sched[0], k=sched[1], target='valid' if (len(faults) % 4) else 'sat'), **b))
@@ -321,7 +321,7 @@ def wrappers():
         except BaseException as e:
             r = ['other:' + type(e).__name__]
         out.append(['so3new', bits(a), 0, r])
-    for n in [1, 3, 4]:
+    for n in [0, 1, 2, 3, 4, 5]:
         try:
             B.SE2StateSpace(1.0, [(0.0, 1.0)] * n)
             r = ['ok']
@@ -330,6 +330,15 @@ def wrappers():
         except BaseException as e:
             r = ['other:' + type(e).__name__]
         out.append(['se2dim', n, 0, r])
+    for n in [0, 1, 2, 3, 4]:
+        try:
+            B.SE3StateSpace(1.0, [(0.0, 1.0)] * n)
+            r = ['ok']
+        except ValueError:
+            r = ['ValueError']
+        except BaseException as e:
+            r = ['other:' + type(e).__name__]
+        out.append(['se3dim', n, 0, r])
     # canonicalised values and distances
     for ang in [0.0, 3.0, pi, -pi, 7.0, -9.5, 100.0, 1e6, -1e9, 2 * pi, 3 * pi]:
         out.append(['so2state', bits(ang), 0, ['ok', bits(B.SO2State(ang).value), bits(B.SE2State(1.0, 2.0, ang).yaw)]])
